@@ -15,10 +15,10 @@ variable {K : Type} [Scalar K]
 def Num.eqv (a b : Num K) : Bool :=
   match a, b with
   | .int x, .int y => x = y
-  | .cplx a b, y => let c := y.toCplx; Scalar.beq a c.1 && Scalar.beq b c.2
-  | x, .cplx c d => let a := x.toCplx; Scalar.beq a.1 c && Scalar.beq a.2 d
+  | .cplx a b, y => let c := y.toCplx; Scalar.solveEq a c.1 && Scalar.solveEq b c.2
+  | x, .cplx c d => let a := x.toCplx; Scalar.solveEq a.1 c && Scalar.solveEq a.2 d
   | x, y => match x.toReal, y.toReal with
-            | some u, some v => Scalar.beq u v
+            | some u, some v => Scalar.solveEq u v
             | _, _ => false
 
 /-- Python `==` on matched values, as far as the matcher can meet them -/
@@ -62,7 +62,7 @@ def affine (p : String) : SExpr K → Option (Num K × Num K)
     else none
 
 /-- solve `a * p + b = y` for `p` -/
-def solveAffine (a b y : Num K) : Num K := (y.add b.neg).mul a.recip
+def solveAffine (a b y : Num K) : Num K := (y.add b.neg).div a
 
 abbrev ArgMatch (K : Type) := List (String × Val K)
 
